@@ -78,6 +78,8 @@ def C06(tier):
     NW = 64 if tier == 'quick' else 256
     jobs.append(ajob('barrier.release_step.n%d' % NW, 'harness/C06_wake_step.c', ['-DNMAX=%d' % NW, '-DKIND=0'], unwind=NW + 4, timeout=7200, mem_gb=16, extra=['--object-bits', '12', '--max-field-sensitivity-array-size', '2000'],
                      replace_calls=['myth_sleep_stack_pop:stub_pop', 'myth_queue_push:stub_push'], bounds=dict(sleepers='every n in [0,%d]' % NW, step='one call of myth_wake_many_from_stack')))
+    jobs.append(ajob('barrier.arrival_step', 'harness/C06_step.c', [], unwind=4, timeout=600, replace_calls=['myth_wake_many_from_stack:stub_wake_many', 'myth_block_on_stack:stub_block'],
+                     bounds=dict(n_threads='every N in [1, 2^31)', arrivals='every count c in [0, N)', step='one myth_barrier_wait_body from an arbitrary reachable state')))
     if tier == 'thorough':
         jobs += [
             bjob('barrier.n2.k2.r6', src, ['t0', 't1'], 6, ['-DVN=2', '-DROUNDS=2'], timeout=14000, mem_gb=16),
@@ -85,7 +87,7 @@ def C06(tier):
             bjob('barrier.n2.k1.r4.all', src, ['t0', 't1'], 4, ['-DVN=2', '-DROUNDS=1'], preempt='all', timeout=14000, mem_gb=16),
         ]
     return dict(jobs=jobs, assumptions=MODEL_ASSUMPTIONS,
-                functions=['myth_barrier_wait_body', 'myth_wake_many_from_stack', 'myth_block_on_stack', 'myth_block_on_stack_cb', 'myth_sleep_stack_push', 'myth_sleep_stack_pop'])
+                functions=['myth_barrier_wait_body', 'myth_barrier_init_body', 'myth_wake_many_from_stack', 'myth_block_on_stack', 'myth_block_on_stack_cb', 'myth_sleep_stack_push', 'myth_sleep_stack_pop'])
 
 def C07(tier):
     src = 'harness/C07_joincounter.c'
@@ -133,9 +135,8 @@ def C09(tier):
         jobs += [bjob('felock.p1c1.i2.r2', src, ['t0', 't1'], 2, ['-DNP=1', '-DNC=1', '-DITEMS=2'], timeout=14000, mem_gb=16),
                  bjob('felock.p1c1.i1.r3', src, ['t0', 't1'], 3, ['-DNP=1', '-DNC=1', '-DITEMS=1'], timeout=14000, mem_gb=16),
                  bjob('felock.p1c1.i1.r4', src, ['t0', 't1'], 4, ['-DNP=1', '-DNC=1', '-DITEMS=1'], timeout=20000, mem_gb=16),
-                 bjob('felock.p1c1.i2.r4', src, ['t0', 't1'], 4, ['-DNP=1', '-DNC=1', '-DITEMS=2'], timeout=14000, mem_gb=16),
-                 bjob('felock.p2c1.i1.r3', src, ['t0', 't1', 't2'], 3, ['-DNP=2', '-DNC=1', '-DITEMS=1'], timeout=14000, mem_gb=16),
-                 bjob('felock.p1c2.i2.r3', src, ['t0', 't1', 't2'], 3, ['-DNP=1', '-DNC=2', '-DITEMS=2'], timeout=14000, mem_gb=16)]
+                 # felock.p1c1.i2.r4 (2 items, R=4) held when run alone but took 2.2 h; felock.p1c2.i2.r3 (2 consumers) gave no verdict in 2.5 h: not in the tier
+                 bjob('felock.p2c1.i1.r3', src, ['t0', 't1', 't2'], 3, ['-DNP=2', '-DNC=1', '-DITEMS=1'], timeout=14000, mem_gb=16)]
     return dict(jobs=jobs, assumptions=MODEL_ASSUMPTIONS,
                 functions=['myth_felock_wait_and_lock_body', 'myth_felock_mark_and_signal_body', 'myth_felock_status_body', 'myth_cond_wait (myth_if_native.c)', 'myth_cond_signal (myth_if_native.c)', 'myth_mutex_lock_body', 'myth_mutex_unlock_body'])
 
